@@ -1,7 +1,8 @@
 SPECIFICATION Spec
 CONSTANTS
-  Mode = "shared"
-  EarlyExit = FALSE
+  Mode = "copy"
+  EarlyExit = TRUE
   MaxLen = 3
 INVARIANT EachTestStartsFromSetup
 INVARIANT ResultIndependentOfHistory
+INVARIANT ExecutorPrivate
